@@ -1173,14 +1173,20 @@ def sift_second_layer(IA, sift_func=sift, sift_args=None):
     """
     IA = ensure_2d([IA], ['IA'], 'sift_second_layer')
 
-    if (sift_args is None) or ('max_imfs' not in sift_args):
-        max_imfs = IA.shape[1]
-    elif 'max_imfs' in sift_args:
-        max_imfs = sift_args['max_imfs']
+    # The number of second layer IMFs defaults to the number of first layer
+    # IMFs. It is always passed on to the sift so that every result fits into
+    # the output array.
+    if sift_args is None:
+        sift_args = {}
+    else:
+        sift_args = sift_args.copy()  # Don't work in place...
+    if 'max_imfs' not in sift_args:
+        sift_args['max_imfs'] = IA.shape[1]
+    max_imfs = sift_args['max_imfs']
 
     imf2 = np.zeros((IA.shape[0], IA.shape[1], max_imfs))
 
-    for ii in range(max_imfs):
+    for ii in range(IA.shape[1]):
         tmp = sift_func(IA[:, ii], **sift_args)
         imf2[:, ii, :tmp.shape[1]] = tmp
 
